@@ -316,7 +316,10 @@ func init() {
 			RunSpec{Name: "names-panics", Sc: scNames(defaultParams(), 6+d, 3, 4), Oracles: o, DetCheck: true},
 		)
 		return runs
-	}, Pure: inputGrid})
+	}, Pure: inputGrid, Notes: []string{
+		"independence of Go map iteration order is decided by executing every transition twice (the runtime randomises each map range), not by enumerating all orders of the six map ranges in the module (DESIGN 3.7)",
+		"independence of process: explored paths are re-executed on the full SimApp (different store implementation, module manager, commits) and must give the same service store",
+	}})
 }
 
 func flip(sc *Scenario) *Scenario { sc.FlipIDs = true; return sc }
